@@ -4,6 +4,7 @@ from random import shuffle
 
 from jsonpickle import encode, decode
 
+from playback.exceptions import NoSuchRecording
 from playback.recordings.memory.memory_recording import MemoryRecording
 from playback.tape_cassette import TapeCassette
 
@@ -46,7 +47,7 @@ class InMemoryTapeCassette(TapeCassette):
         """
         serialized_recording = self._recordings.get(recording_id)
         if serialized_recording is None:
-            return None
+            raise NoSuchRecording(recording_id)
         deserialized_form = decode(serialized_recording)
         return MemoryRecording(_id=deserialized_form.id, recording_data=deserialized_form.recording_data,
                                recording_metadata=deserialized_form.recording_metadata)
